@@ -186,6 +186,11 @@ func keyExpr(v ssa.Value) (idx ssa.Value, field string, listing ssa.Value, ok bo
 	}
 	for _, s := range an.Sources(call.Call.Value) {
 		k := an.ClosureFn(s)
+		if k == nil {
+			if f, isFn := s.(*ssa.Function); isFn && len(f.Blocks) > 0 {
+				k = f
+			}
+		}
 		if k == nil || len(k.Params) != 1 {
 			continue
 		}
@@ -193,8 +198,18 @@ func keyExpr(v ssa.Value) (idx ssa.Value, field string, listing ssa.Value, ok bo
 			if len(r.Results) != 1 {
 				continue
 			}
+			// key(i): the function indexes the listing itself
 			if i2, f, l2, ok2 := keyExpr(r.Results[0]); ok2 && i2 == ssa.Value(k.Params[0]) {
 				return call.Call.Args[0], f, l2, true
+			}
+			// key(listing[i]): the function is given the item and returns one of its fields
+			if base, _, f, isF := an.FieldOf(r.Results[0]); isF && base == ssa.Value(k.Params[0]) {
+				arg := call.Call.Args[0]
+				if ld, isLoad := arg.(*ssa.UnOp); isLoad && ld.Op == token.MUL {
+					if ia, isIA := ld.X.(*ssa.IndexAddr); isIA {
+						return ia.Index, f, ia.X, true
+					}
+				}
 			}
 		}
 	}
@@ -267,13 +282,20 @@ func r15handler(c *an.Ctx, h pagingHandler) {
 	}
 	// ---- the listing, search and page
 	var page *ssa.Slice
-	an.Instrs(fn, func(in ssa.Instruction) {
+	findPage := func(in ssa.Instruction) {
 		if sl, ok := in.(*ssa.Slice); ok && sl.Low != nil && sl.High != nil {
 			if _, isSlice := sl.X.Type().Underlying().(*types.Slice); isSlice {
 				page = sl
 			}
 		}
-	})
+	}
+	an.Instrs(fn, findPage)
+	if page == nil {
+		// the page may be cut in a helper the handler shares with others (an instance of a generic pager)
+		for _, h := range an.TransparentCalleesOf(fn, 2) {
+			an.Instrs(h, findPage)
+		}
+	}
 	if page == nil {
 		c.Bad("R15.6", name+"|page is listing[next : min(next+size, len)]", fn.Pos(), "no listing[low:high] page found")
 		return
